@@ -88,12 +88,13 @@ type vWorld struct {
 	failPodList  bool
 	cpuPerNode int64
 	memPerNode int64
+	minTaintAge int64 // most negative taint age (seconds): a taint time in the future
 }
 
 func newWorld(failBudget int) *vWorld {
 	j := &aws.VerifJournal{FailBudget: failBudget}
 	as := &aws.VerifAutoScaling{J: j}
-	w := &vWorld{J: j, AS: as, base: verifNowUnix(), cpuPerNode: 4000, memPerNode: 16 << 30}
+	w := &vWorld{J: j, AS: as, base: verifNowUnix(), cpuPerNode: 4000, memPerNode: 16 << 30, minTaintAge: -60}
 	w.EC2 = &aws.VerifEC2{J: j, AS: as, FleetSize: -1, ReadyAfter: 1, LaunchUnix: w.base - 600}
 	return w
 }
@@ -160,6 +161,12 @@ func (w *vWorld) addNode(g int, class int, cordoned bool, annot int, taintAge, c
 		n.annotKey = true
 	case 2:
 		obj.Annotations = map[string]string{NodeEscalatorIgnoreAnnotation: "keep"}
+		n.annotKey, n.annotated = true, true
+	case 3:
+		obj.Annotations = map[string]string{NodeEscalatorIgnoreAnnotation: "false", "other": "x"}
+		n.annotKey, n.annotated = true, true
+	case 4:
+		obj.Annotations = map[string]string{NodeEscalatorIgnoreAnnotation: "0"}
 		n.annotKey, n.annotated = true, true
 	}
 	esc := func(val string) v1.Taint {
